@@ -92,8 +92,14 @@ var semEntries = []semEntry{
 	{"ParseTag[named []byte]", false, true, func(s string) (sem.Ver, error) { return sem.ParseTag(semNamedB(s)) }, false},
 	{"DefaultParser[named string](RuleDisableTag)", true, false, func(s string) (sem.Ver, error) { return sem.DefaultParser(semNamedS(s), sem.RuleDisableTag) }, false},
 	{"Ver.UnmarshalText", true, true, func(s string) (sem.Ver, error) {
-		var v sem.Ver
+		v := sem.Ver{Major: 9, Minor: 9, Patch: 9, PreRelease: "old", Build: "old"} // the receiver already holds another version
 		err := v.UnmarshalText([]byte(s))
+		if err != nil {
+			if v != (sem.Ver{Major: 9, Minor: 9, Patch: 9, PreRelease: "old", Build: "old"}) {
+				return sem.Ver{Major: 424242, Build: "receiver changed although UnmarshalText failed"}, nil
+			}
+			return sem.Ver{}, err
+		}
 		return v, err
 	}, true},
 }
@@ -348,6 +354,22 @@ func genVersionText(r *rt.Rand) string {
 	return s
 }
 
+func init() {
+	texts := []string{"0.0.0", "v0.0.0", "1.2.3-rc.1+b", "18446744073709551615.0.0", "1.0.0-SNAPSHOT", "v1.0.0+001", "1.0.0-0", "01.0.0", "1.0.0-"}
+	coldCases["C03"] = coldGeneric([]func(){
+		func() { _, _ = sem.Parse("0.0.0") },
+		func() { _ = sem.Ver{}.String() },
+		func() { _ = sem.Ver{PreRelease: "a"}.Valid() },
+		func() { _, _ = sem.ParseTag([]byte("v0.0.0-0")) },
+		func() { _ = sem.New(1, 0, 0, "rc").Compare(sem.New(1, 0, 0)) },
+		func() { _, _ = sem.Compare("1.0.0-a", "v1.0.0-b") },
+		func() {},
+	}, func(w *rt.W, k int) {
+		c03Case(w, texts[k], true)
+		c03ValidCase(w, sem.Ver{Major: uint64(k), PreRelease: "rc." + fmt.Sprint(k), Build: "0" + fmt.Sprint(k)})
+	}, len(texts))
+}
+
 func runC03(c *rt.Ctx) {
 	L1, L2, L3 := c.Pick(7, 8), c.Pick(7, 8), c.Pick(9, 10)
 	c.SetRule(fmt.Sprintf("three exhaustive families: every string over {0,1,9,a,Z,-,.,+,v} of length 0..%d; \"1.0.0\" followed by every suffix over {0,1,9,a,Z,-,.,+} of length 0..%d; every string over {0,1,2,9,.,v} of length 0..%d; ", L1, L2, L3) +
@@ -495,6 +517,26 @@ func runC03(c *rt.Ctx) {
 	})
 	c.Require("single-byte-substitution", 100000)
 
+	// common pre-release / build words in every letter case (anything that treats a well-known word specially shows here)
+	c.Parallel("vocabulary", 0, func(w *rt.W) {
+		words := []string{"alpha", "beta", "rc", "snapshot", "dev", "nightly", "pre", "preview", "canary", "final", "release", "ga", "m1", "ea", "next", "latest", "stable", "test", "build", "sha", "git", "dirty", "exp", "nil", "null", "true", "inf", "nan", "x", "v", "rc1", "beta2"}
+		k := 0
+		for _, wd := range words {
+			for _, v := range []string{wd, strings.ToUpper(wd), strings.ToUpper(wd[:1]) + wd[1:], wd[:1] + strings.ToUpper(wd[1:])} {
+				k++
+				if k%w.NShards != w.Shard {
+					continue
+				}
+				for _, t := range []string{"1.0.0-" + v, "v2.3.4-" + v + "+build.7", "1.0.0+" + v, "0.0.1-" + v + ".1", "0.0.1-1." + v, "1.0.0-" + v + "-" + v, "1.0.0-x+" + v + "." + v} {
+					c03Case(w, t, true)
+				}
+				c03ValidCase(w, sem.Ver{Major: 1, PreRelease: v, Build: v})
+				w.ClassN("vocabulary-word-variant", 1)
+			}
+		}
+	})
+	c.Require("vocabulary-word-variant", 100)
+
 	{ // call histories: valid texts of equal length colliding under weak checksums, parsed back to back
 		var texts []string
 		for a := 0; a < 110; a++ {
@@ -516,6 +558,8 @@ func runC03(c *rt.Ctx) {
 		collisionHistories(c, texts, 300, 200, func(w *rt.W, t string) { c03Case(w, t, true) })
 	}
 
+	coldStart(c, "C03", 14)
+
 	nVer := c.Pick(1000000, 10000000)
 	c.Parallel("valid-roundtrip", 0, func(w *rt.W) {
 		field := func(build bool) string {
@@ -525,7 +569,8 @@ func runC03(c *rt.Ctx) {
 			case 2, 3, 4:
 				return genIdentList(w.Rng, build)
 			case 5: // near-valid
-				return []string{"01", "a..b", ".a", "a.", "a+b", "a_b", "é", "a b", "a\n", "00", "0", "-", "a-", "1.02", "1.0a", "+", "a.+", " "}[w.Rng.Intn(18)]
+				return []string{"01", "a..b", ".a", "a.", "a+b", "a_b", "é", "a b", "a\n", "00", "0", "-", "a-", "1.02", "1.0a", "+", "a.+", " ",
+					"099999999999999999999", "rc.020250927123456789012", "99999999999999999999999", "0" + fmt.Sprint(w.Rng.U64()) + fmt.Sprint(w.Rng.U64()), "1.018446744073709551616", "00000000000000000000000000", "x.0" + strings.Repeat("9", 30)}[w.Rng.Intn(25)]
 			case 6:
 				s := genIdentList(w.Rng, build)
 				p := w.Rng.Intn(len(s) + 1)
